@@ -18,6 +18,22 @@ CHECKS = {
         technique="reader/writer agreement by def-use comparison + who-defines rule + exhaustive table check",
         design="4/C02",
     ),
+    "C03": dict(
+        category="other",
+        text="R1: the framing walkers are loop-specialised with the field lists of Command/Response from L and all owner "
+             "walkers are turned into abstract traces (create/register/arm/process/close) per variant (tag x response code x "
+             "payload kind, 11 traces); on every trace each SizeConstraint is armed once with the value just decoded for its "
+             "size field and that field's path, registered in the list the children receive, governs exactly the fields the "
+             "statement says its size field measures (commandSize/responseSize: whole message; authSize: authorizationArea; "
+             "parameterSize: parameters; TPM2B size: payload) and is closed on every normal exit or transferred to the "
+             "byte-sized-array walker which closes it. R2 the charge dominates the first byte request in the primitive walker "
+             "with the same size; R3 only the primitive walker and consume_bytes request bytes; R4 every recursive call "
+             "threads size_constraints; R5 error construction sites/arguments and the accounting shape of the constraint "
+             "classes. The size arithmetic itself (>, ==, exceeded_by, earliest point) is not decided.",
+        note="trusted: CPython ast; L (E1). Comparisons on runtime integers are deliberately not pattern-matched.",
+        technique="partial evaluation (loop specialisation) + typestate over abstract traces, CFG dominance, who-may-call rules",
+        design="4/C03",
+    ),
     "C04": dict(
         category="other",
         text="V1 CFG dominance in the primitive walker: the is_valid() test dominates the field's event, the error is built "
